@@ -671,3 +671,40 @@ def opt_as_ref(M, st, fr, t, args, site):
 PURE = re.compile(r"^context::Context::get_|^<context::CommonContext as context::Context>::get_|^expr::Expr::run$|^device::Device::|"
                   r"^std::collections::HashMap::<K, V, S, A>::get$|^std::collections::BTreeSet::<T, A>::get$|"
                   r"^std::path::Path::|^std::ffi::OsStr::|^core::str::<impl str>::(trim|parse|chars|lines)|^instruction::")
+
+
+# ------------------------------------------------------------------------------------------------ literal tables (maplit)
+@pattern(r"^std::collections::BTreeSet::<T>::new$|^std::collections::HashSet::<T, S>::new$")
+def set_new(M, st, fr, t, args, site):
+    return vec_value([], "set")
+
+
+@pattern(r"^std::collections::BTreeSet::<T, A>::insert$")
+def set_insert(M, st, fr, t, args, site):
+    a = args[0]
+    if a[0] != 'ref':
+        return NotImplemented
+    v = M.read(st, a[1], a[2])
+    if v[0] != 'vec':
+        return NotImplemented
+    M.write(st, a[1], a[2], vec_value(merge_items(list(v[2]) + [('items', (args[1],))]), "set"))
+    return ('int', C(1, 1, False))
+
+
+@pattern(r"^std::collections::HashMap::<K, V>::with_capacity$|^std::collections::HashMap::<K, V>::new$")
+def map_new(M, st, fr, t, args, site):
+    st.counter += 1
+    return ('map', st.counter)
+
+
+@pattern(r"^std::collections::HashMap::<K, V, S, A>::insert$")
+def map_insert(M, st, fr, t, args, site):
+    a = args[0]
+    if a[0] != 'ref':
+        return NotImplemented
+    v = M.read(st, a[1], a[2])
+    if v[0] != 'map':
+        return NotImplemented      # inserts into unknown (input) maps stay opaque
+    st.events.append(('map-insert', v[1], args[1], args[2], site))
+    rty = M.ret_ty(fr, t)
+    return mk_enum(M, fr, rty, 0, [])
